@@ -29,7 +29,8 @@ ASSUMPTIONS = ['sentinels are alphanumeric so that raw, HTML-, JSON- and repr-es
                'searched by their digits/letters)', 'redaction is decided on the resource *name* containing "secret"']
 
 NAMES = ['secret', 'secret_key', 'db_secret_url', 'my_secretX', 'token', 's', 'payment_gateway_webhook_signing_secret',
-         'page_title']      # page_title: also the name of one of the meta application's own resources
+         'page_title',      # page_title: also the name of one of the meta application's own resources
+         u'caf\udce9 file', u'secret caf\udce9', u'<b>&"name"']   # names that are not identifiers: surrogate-escaped, markup
 KINDS = ['str', 'bytes', 'int', 'nested', 'reprobj', 'longstr', 'surrstr']
 MOUNTS = ['/_meta/', '/m', '/', 'deep']
 MWSETS = ['none', 'cookie', 'custom', 'subclass', 'provides-shapes']
@@ -225,6 +226,18 @@ def fetch(app, base, view):
     return wsgi.call(app, path, 'GET')
 
 
+def name_listed(name, body):
+    """The resource name appears in the page: as it is, HTML-escaped, JSON-escaped, or with its unencodable
+    characters backslash-escaped."""
+    import html as _html
+    n = name[:20]
+    forms = [n, _html.escape(n), _html.escape(n, quote=False), json.dumps(n)[1:-1], json.dumps(n, ensure_ascii=False)[1:-1]]
+    safe = n.encode('utf-8', 'backslashreplace').decode('utf-8')
+    forms += [safe, _html.escape(safe), json.dumps(safe)[1:-1]]
+    forms.append(n.replace('"', '&quot;').replace('<', '&lt;').replace('>', '&gt;').replace('&', '&amp;'))
+    return any(f in body for f in forms)
+
+
 def check_page(acc, res, spec, view, case, label, expect_failure=None, require_resources=False):
     listing = expect_failure is None or require_resources
     def bad(k, msg):
@@ -253,7 +266,7 @@ def check_page(acc, res, spec, view, case, label, expect_failure=None, require_r
                 bad('secret-disclosed:%s' % ('longname' if len(name) > 32 else 'shortname'),
                     'value of resource %r (%s) appears in the page' % (name, kind))
                 return False
-            if listing and ('[REDACTED]' not in body or name[:20] not in body):
+            if listing and ('[REDACTED]' not in body or not name_listed(name, body)):
                 bad('redaction-marker-missing', 'resource %r is not listed with the redaction marker' % name)
                 return False
         else:
